@@ -23,6 +23,7 @@ func C06(p *load.Prog, r *report.Report) {
 		r.Undecided("C06.model", "layout", "", err.Error())
 		return
 	}
+	m.stateGuard(r, "C06", false, true)
 	s, t := absint.FieldSym(FN, "s"), absint.FieldSym(FN, "t")
 	type binop struct {
 		meth string
